@@ -759,6 +759,11 @@ def analyze(ctx, want):
     fn, ex, paths = run(r"TryFrom<&regex_syntax::ast::ClassUnicode>>::try_from$", max_paths=20000)
     n_named = 0
     errs = {"one-letter-other": None, "named-other": None, "named-value": None}
+
+    def set_err(key_, val_):
+        # "every path of this kind is rejected": one accepting path settles it, whatever order the paths come in
+        if errs[key_] is not False:
+            errs[key_] = val_
     for p in ret_paths(paths):
         r = p.end[1]
         kd = [(c, o) for c, o in p.conds if c[0] == "discr"]
@@ -773,23 +778,23 @@ def analyze(ctx, want):
         neg = negc[-1][1] if negc else None
         if r[0] == "adt" and r[2] == "Err":
             if kind == "NamedValue":
-                errs["named-value"] = True
+                set_err("named-value", True)
             elif kind == "OneLetter" and not taken:
-                errs["one-letter-other"] = True
+                set_err("one-letter-other", True)
             elif kind == "Named" and not taken:
-                errs["named-other"] = True
+                set_err("named-other", True)
             continue
         if not (r[0] == "adt" and r[2] == "Ok"):
             continue
         if kind == "NamedValue":
-            errs["named-value"] = False
+            set_err("named-value", False)
             continue
         if not taken:
             # an Ok result without a recognised name: a wildcard arm accepts unknown classes
             if kind == "OneLetter":
-                errs["one-letter-other"] = False
+                set_err("one-letter-other", False)
             elif kind == "Named":
-                errs["named-other"] = False
+                set_err("named-other", False)
             continue
         t = taken[-1]
         lit = None
